@@ -18,13 +18,27 @@ RS = 800
 RADII = [0.2, 0.35, 0.5, 1.0, 2.5, 3.7, 10.0, 25.0, 50.0, 123.4, 500.0]
 
 
-def make_handlers(x, y):
+def make_handlers(x, y, units="mm"):
+    """
+    A homed filter with the tool at logical (x, y).  units: "mm"; "inch" (G20 in effect: one
+    length unit is an inch); "stale" (an earlier print selected inches and never switched back,
+    then a new print started: millimetres again).
+    """
     from harness.rig import FilterRig
     rig = FilterRig({})
     rig.gcode("G28")
+    factor = 1.0
+    if units == "inch":
+        rig.gcode("G20")
+        factor = 25.4
+    elif units == "stale":
+        rig.gcode("G20")
+        rig.gcode("G1 X1 Y1")
+        rig.state.resetState()
+        rig.gcode("G28")
     pos = rig.state.position
-    pos.X_AXIS.current = x
-    pos.Y_AXIS.current = y
+    pos.X_AXIS.current = x * factor
+    pos.Y_AXIS.current = y * factor
     return rig
 
 
@@ -78,7 +92,8 @@ def plan_case(rng, tier):
             ex = round(sx + i + radius * math.cos(a1), 4)
             ey = round(sy + j + radius * math.sin(a1), 4)
     return {"sx": sx, "sy": sy, "i": i, "j": j, "ex": ex, "ey": ey,
-            "cw": clockwise, "full": kind == "full", "r": radius, "sweep": sweep}
+            "cw": clockwise, "full": kind == "full", "r": radius, "sweep": sweep,
+            "units": rng.choice(["mm", "mm", "mm", "mm", "inch", "inch", "stale"])}
 
 
 def observe_plan(case):
@@ -87,7 +102,11 @@ def observe_plan(case):
              "lmilli": int(round(case["sweep"] * case["r"] * 1000)),
              "tiny": False, "case": case}
     try:
-        rig = make_handlers(case["sx"], case["sy"])
+        rig = make_handlers(case["sx"], case["sy"], case.get("units", "mm"))
+        if case.get("units") == "inch" and case["full"]:
+            # the start point the code sees is (sx * 25.4) / 25.4: a full circle ends there
+            case = dict(case, ex=rig.state.position.X_AXIS.nativeToLogical(),
+                        ey=rig.state.position.Y_AXIS.nativeToLogical())
         pts = rig.handlers.planArc(case["ex"], case["ey"], case["i"], case["j"], case["cw"])
         cx, cy = case["sx"] + case["i"], case["sy"] + case["j"]
         radius = math.hypot(case["i"], case["j"])
@@ -184,7 +203,8 @@ def deep_case(rng):
     cmd = "%s X%s Y%s I%s J%s" % ("G2" if clockwise else "G3", repr(round(ex, 4)),
                                   repr(round(ey, 4)), repr(round(cx - sx, 4)),
                                   repr(round(cy - sy, 4)))
-    return {"region": region, "sx": round(sx, 4), "sy": round(sy, 4), "cmd": cmd}
+    return {"region": region, "sx": round(sx, 4), "sy": round(sy, 4), "cmd": cmd,
+            "units": rng.choice(["mm", "mm", "mm", "inch", "stale"])}
 
 
 def observe_deep(case):
@@ -192,8 +212,21 @@ def observe_deep(case):
     event = {"k": "deep", "raised": "", "res": "", "case": case}
     try:
         rig = FilterRig({})
-        rig.add_region(case["region"])
+        units = case.get("units", "mm")
+        region = dict(case["region"])
+        if units == "inch":
+            # the same numbers read as inches: the region (registered in mm) is scaled
+            for key in ("x1", "y1", "x2", "y2"):
+                region[key] = region[key] * 25.4
+        rig.add_region(region)
         rig.gcode("G28")
+        if units == "inch":
+            rig.gcode("G20")
+        elif units == "stale":
+            rig.gcode("G20")
+            rig.gcode("G1 X0.1 Y0.1")
+            rig.state.resetState()
+            rig.gcode("G28")
         rig.gcode("G1 X%s Y%s" % (repr(case["sx"]), repr(case["sy"])))
         result = rig.gcode(case["cmd"])
         event["res"] = result["res"]
@@ -260,7 +293,9 @@ def run(tier, seed):
         "coverage": {
             "evaluations": len(events), "distinct_nontrivial": distinct,
             "rule": "planArc on random start/centre, radii %s (and random radii up to 60), sweeps "
-                    "full / quarter turns / random / nearly zero / nearly full, both directions; "
+                    "full / quarter turns / random / nearly zero / nearly full / a hair from zero or "
+                    "from a full turn, both directions, coordinates in full precision or with "
+                    "1-4 decimals, in mm, in inches (G20) and in mm after an inch print; "
                     "computeArcCenterOffsets on horizontal, vertical and oblique chords with "
                     "|R| from half the chord to 20 chords, both signs; arcs through the middle "
                     "of a region via handleGcode.  Non-trivial = distinct cases (plans with more "
